@@ -60,6 +60,7 @@ package index
 //@   abstract ensures err == nil && found ==> keyof(blk) == idx.$Eblk[ires(idx.$Ein, idx.$Eblk, bytes(key))]
 //@   abstract ensures err != nil ==> !found
 //@   abstract ensures err == nil ==> len(key) >= 4
+//@   abstract ensures err != types.ErrKeyExists
 
 //@ func (idx *Index) Put(key []byte, location types.Block) (err error)
 //@   abstract gap GAP-1: pools+disk record lists implement the ghost index map
@@ -67,12 +68,14 @@ package index
 //@   abstract ensures err == nil && old(idx.$Ein)[bytes(key)] ==> idx.$Ein == old(idx.$Ein) && idx.$Eblk == old(idx.$Eblk)
 //@   abstract ensures err == nil && !old(idx.$Ein)[bytes(key)] ==> idx.$Ein == old(idx.$Ein)[bytes(key) := true] && idx.$Eblk == old(idx.$Eblk)[bytes(key) := keyof(location)]
 //@   abstract ensures err != nil ==> idx.$Ein == old(idx.$Ein) && idx.$Eblk == old(idx.$Eblk)
+//@   abstract ensures err != types.ErrKeyExists
 
 //@ func (idx *Index) Update(key []byte, location types.Block) (err error)
 //@   abstract gap GAP-1: pools+disk record lists implement the ghost index map
 //@   abstract modifies idx.$Eblk
 //@   abstract ensures err == nil ==> old(ihit(idx.$Ein, idx.$Eblk, bytes(key))) && idx.$Eblk == old(idx.$Eblk)[old(ires(idx.$Ein, idx.$Eblk, bytes(key))) := keyof(location)]
 //@   abstract ensures err != nil ==> idx.$Eblk == old(idx.$Eblk)
+//@   abstract ensures err != types.ErrKeyExists
 
 //@ func (idx *Index) Remove(key []byte) (removed bool, err error)
 //@   abstract gap GAP-1: pools+disk record lists implement the ghost index map
@@ -81,3 +84,4 @@ package index
 //@   abstract ensures err == nil && removed ==> idx.$Ein == old(idx.$Ein)[old(ires(idx.$Ein, idx.$Eblk, bytes(key))) := false]
 //@   abstract ensures (err == nil && !removed) || err != nil ==> idx.$Ein == old(idx.$Ein)
 //@   abstract ensures err != nil ==> !removed
+//@   abstract ensures err != types.ErrKeyExists
